@@ -1,9 +1,10 @@
 import Driver.Proto
 import Driver.Sexp
 import Dawgs.Spec.C10
+import Dawgs.Spec.C10Q
 /-! C10 model driver (raw lines, fields separated by TAB).
 
-  mode fixed | mode current          switch between `emitFixed` and `emit`            -> ok
+  mode fixed | mode current          switch between `emit` (format.go as it is) and `emitOld` (before the C10 fixes)            -> ok
   e [fixed|current] <M> <R>          (mode may also be given per line)
                                      M = the where-expression of the model the text was rendered from,
                                      R = the where-expression the REAL parser built from the REAL text (or `none`)
@@ -16,6 +17,9 @@ import Dawgs.Spec.C10
        TAB eqreal yes|no|skip   (real Prepare output ≡ model output, by valuations)
        TAB eqapplied yes|no|skip (prepared query ≡ applied criteria, string-negation guard aside)
        TAB sites <context of every hoisted matcher: and|or|xor|allof[,multi] | ->
+  e <mode> <M> <R> <A> <RK> <QM> <QR> <QA>   additionally the whole query (after Prepare / re-parsed / as applied); gains
+       TAB qtoks <tokens of emitQ QM> TAB qparse <normQ (parseQ (emitQ QM))> TAB qnm <normQ QM> TAB qnr <normQ QR>
+       TAB qprep <prepareQ QA: parameters named p0.. in text order, at most one kind matcher hoisted | error>
   o <O>                              one operand: tokens, parse∘emit, ok flag (literal suite)
   s <json string>                    quote / lex / decode of one string at character level
   unmodelled(<tag>) when M uses a construct outside the algebra (never silently accepted).
@@ -68,6 +72,10 @@ def tokStr : Tok → String
   | .str s => "s" ++ jq (String.ofList (quote s.toList))     -- the source form cypher.NewStringLiteral must produce
   | .ident s => "i" ++ jq s
   | .param s => "$" ++ jq s
+  | .kwMatch => "match" | .kwWhere => "where" | .kwReturn => "return" | .kwDistinct => "distinct" | .kwOrderBy => "order_by"
+  | .kwAsc => "asc" | .kwDesc => "desc" | .kwSkip => "skip" | .kwLimit => "limit" | .kwSet => "set" | .kwRemove => "remove"
+  | .kwDelete => "delete" | .kwDetachDelete => "detach_delete" | .kwCreate => "create"
+  | .relOpen => "-[" | .relClose => "]->" | .pipe => "|"
 
 def toksStr (ts : List Tok) : String := " ".intercalate (ts.map tokStr)
 
@@ -273,15 +281,15 @@ def siteNames (e : Expr) : List String :=
 def ksStr (ks : List String) : String := "(ks" ++ String.join (ks.map (fun k => " " ++ jq k)) ++ ")"
 
 /-- fields about Prepare: A = criteria as applied, rk/m = kinds on the real pattern and the real WHERE after Prepare -/
-def answerP (a : Expr) (rk : Option (List String)) (m : Option Expr) : String :=
+def answerP (fix7 : Bool) (a : Expr) (rk : Option (List String)) (m : Option Expr) : String :=
   let sn := dedup (siteNames a)
   let nsites := (siteNames a).length
   let sites := "\tsites " ++ (if sn.isEmpty then "-" else ",".intercalate sn) ++ (if nsites > 1 then ",multi" else "")
-  match prepare a with
+  match (if !fix7 then prepare a else some (prepareFix7 a)) with
   | none => "\tpk error\tpw error\teqreal skip\teqapplied skip" ++ sites
   | some (pk, pw) =>
     let eqApplied :=
-      match prep false false true a with
+      match (if !fix7 then prep false false true a else some (prepFix7 false false false true true a)) with
       | some (h0, w0) =>
         let (t1, fm) := compileMeaning #[] (flattenKinds h0) w0
         let (t2, fa) := compileF t1 a
@@ -297,11 +305,160 @@ def answerP (a : Expr) (rk : Option (List String)) (m : Option Expr) : String :=
     "\tpk " ++ ksStr pk ++ "\tpw " ++ (match pw with | some x => exprStr x | none => "none") ++
       "\teqreal " ++ eqReal ++ "\teqapplied " ++ eqApplied ++ sites
 
+
+/-! ### whole queries -/
+def optStr : Option String → String
+  | some v => jq v
+  | none => "none"
+
+def elStr : PatEl → String
+  | .node v ks p => "(node " ++ optStr v ++ " " ++ ksStr ks ++ " " ++ optStr p ++ ")"
+  | .rel v ks p => "(rel " ++ optStr v ++ " " ++ ksStr ks ++ " " ++ optStr p ++ ")"
+
+def itemStr : Item → String
+  | .op o => "(op " ++ operandStr o ++ ")"
+  | .fnDistinct f a => "(fnd " ++ jq f ++ " " ++ operandStr a ++ ")"
+
+def optOStr : Option Operand → String
+  | some o => operandStr o
+  | none => "none"
+
+def projStr (p : Proj) : String :=
+  "(proj " ++ (if p.distinct then "1" else "0") ++ " (items" ++ String.join (p.items.map (fun i => " " ++ itemStr i)) ++ ") (order" ++
+    String.join (p.order.map (fun s => " (s " ++ operandStr s.o ++ (if s.asc then " 1)" else " 0)"))) ++ ") " ++
+    optOStr p.skip ++ " " ++ optOStr p.limit ++ ")"
+
+def updStr : Upd → String
+  | .set items => "(set" ++ String.join (items.map (fun i => match i with
+      | .prop v p val => " (sprop " ++ jq v ++ " " ++ jq p ++ " " ++ operandStr val ++ ")"
+      | .kinds v ks => " (skinds " ++ jq v ++ " " ++ ksStr ks ++ ")")) ++ ")"
+  | .remove items => "(remove" ++ String.join (items.map (fun i => match i with
+      | .prop v p => " (rprop " ++ jq v ++ " " ++ jq p ++ ")"
+      | .kinds v ks => " (rkinds " ++ jq v ++ " " ++ ksStr ks ++ ")")) ++ ")"
+  | .delete d vs => "(delete " ++ (if d then "1" else "0") ++ String.join (vs.map (fun v => " " ++ jq v)) ++ ")"
+  | .create pat => "(create" ++ String.join (pat.map (fun e => " " ++ elStr e)) ++ ")"
+
+def queryStr (q : Query) : String :=
+  "(Q (pat" ++ String.join (q.pattern.map (fun e => " " ++ elStr e)) ++ ") (where " ++
+    (match q.where_ with | some e => exprStr e | none => "none") ++ ") (upds" ++
+    String.join (q.updates.map (fun u => " " ++ updStr u)) ++ ") (ret " ++
+    (match q.ret with | some p => projStr p | none => "none") ++ "))"
+
+def readOptS : Sexp → Option (Option String)
+  | .atom "none" => some none
+  | .str s => some (some s)
+  | _ => none
+
+def readKs : Sexp → Option (List String)
+  | .list (.atom "ks" :: ks) => strsOf ks
+  | _ => none
+
+def readEl : Sexp → Rd PatEl
+  | .list [.atom "node", v, ks, p] =>
+    match readOptS v, readKs ks, readOptS p with
+    | some v', some ks', some p' => .ok (.node v' ks' p')
+    | _, _, _ => .bad "node"
+  | .list [.atom "rel", v, ks, p] =>
+    match readOptS v, readKs ks, readOptS p with
+    | some v', some ks', some p' => .ok (.rel v' ks' p')
+    | _, _, _ => .bad "rel"
+  | .list [.atom "unmodelled", .str t] => .unmodelled t
+  | _ => .bad "patel"
+
+def readOptO : Sexp → Rd (Option Operand)
+  | .atom "none" => .ok none
+  | x => do let o ← readOperand x; pure (some o)
+
+def readItem : Sexp → Rd Item
+  | .list [.atom "op", o] => do let o' ← readOperand o; pure (.op o')
+  | .list [.atom "fnd", .str f, a] => do let a' ← readOperand a; pure (.fnDistinct f a')
+  | .list [.atom "unmodelled", .str t] => .unmodelled t
+  | _ => .bad "item"
+
+def readSort : Sexp → Rd SortItem
+  | .list [.atom "s", o, .atom a] => do let o' ← readOperand o; pure ⟨o', a == "1"⟩
+  | _ => .bad "sort"
+
+def readProj : Sexp → Rd (Option Proj)
+  | .atom "none" => .ok none
+  | .list [.atom "proj", .atom d, .list (.atom "items" :: items), .list (.atom "order" :: order), sk, lim] => do
+    let items' ← items.mapM readItem
+    let order' ← order.mapM readSort
+    let sk' ← readOptO sk
+    let lim' ← readOptO lim
+    pure (some ⟨d == "1", items', order', sk', lim'⟩)
+  | .list [.atom "unmodelled", .str t] => .unmodelled t
+  | _ => .bad "proj"
+
+def readUpd : Sexp → Rd Upd
+  | .list (.atom "set" :: items) => do
+    let items' ← items.mapM (fun i => match i with
+      | .list [.atom "sprop", .str v, .str p, val] => do let val' ← readOperand val; pure (SetItem.prop v p val')
+      | .list [.atom "skinds", .str v, ks] => match readKs ks with | some ks' => Rd.ok (SetItem.kinds v ks') | none => Rd.bad "skinds"
+      | .list [.atom "unmodelled", .str t] => Rd.unmodelled t
+      | _ => Rd.bad "setitem")
+    pure (.set items')
+  | .list (.atom "remove" :: items) => do
+    let items' ← items.mapM (fun i => match i with
+      | .list [.atom "rprop", .str v, .str p] => Rd.ok (RemItem.prop v p)
+      | .list [.atom "rkinds", .str v, ks] => match readKs ks with | some ks' => Rd.ok (RemItem.kinds v ks') | none => Rd.bad "rkinds"
+      | .list [.atom "unmodelled", .str t] => Rd.unmodelled t
+      | _ => Rd.bad "remitem")
+    pure (.remove items')
+  | .list (.atom "delete" :: .atom d :: vs) =>
+    match strsOf vs with
+    | some vs' => .ok (.delete (d == "1") vs')
+    | none => .bad "delete"
+  | .list (.atom "create" :: els) => do let els' ← els.mapM readEl; pure (.create els')
+  | .list [.atom "unmodelled", .str t] => .unmodelled t
+  | _ => .bad "upd"
+
+def readQuery : Sexp → Rd Query
+  | .list [.atom "Q", .list (.atom "pat" :: els), .list [.atom "where", w], .list (.atom "upds" :: us), .list [.atom "ret", r]] => do
+    let els' ← els.mapM readEl
+    let w' ← (match w with
+      | .atom "none" => Rd.ok none
+      | x => do let e ← readExpr x; pure (some e))
+    let us' ← us.mapM readUpd
+    let r' ← readProj r
+    pure ⟨els', w', us', r'⟩
+  | .list [.atom "unmodelled", .str t] => .unmodelled t
+  | _ => .bad "query"
+
+/-- the kinds of a relationship pattern are a set (`[r:A|B|A]` re-parses as `[r:A|B]`) -/
+def dedupEl : PatEl → PatEl
+  | .rel v ks p => .rel v (dedup ks) p
+  | el => el
+
+def normQd (q : Query) : Query := { q with pattern := q.pattern.map dedupEl, where_ := q.where_.map norm }
+
+/-- fields about the whole query: QM = the model the text was rendered from (after Prepare), QR = the real re-parse,
+QA = the query as applied (parameters unnamed, pattern kinds not yet hoisted) -/
+def answerQ (fix7 : Bool) (qm qr qa : Sexp) : String :=
+  match readQuery qm with
+  | .unmodelled t => "\tqunmodelled " ++ t
+  | .bad w => "\tqbad " ++ w
+  | .ok m =>
+    let ts := emitQ m
+    let base := "\tqtoks " ++ toksStr ts ++
+      "\tqparse " ++ (match parseQ ts with | some x => queryStr (normQd x) | none => "none") ++
+      "\tqnm " ++ queryStr (normQd m) ++
+      "\tqnr " ++ (match qr with
+        | .atom "none" => "none"
+        | _ => match readQuery qr with | .ok r => queryStr (normQd r) | _ => "unmodelled")
+    match qa with
+    | .atom "none" => base
+    | _ =>
+      match readQuery qa with
+      | .ok a => base ++ "\tqprep " ++ (match prepareQ fix7 a with | some x => queryStr x | none => "error")
+      | _ => base
+
 /-! ### steps -/
 structure St where
   fixed : Bool := false
+  prepFix7 : Bool := false
 
-def emitter (st : St) : Expr → List Tok := if st.fixed then emitFixed else emit
+def emitter (st : St) : Expr → List Tok := if st.fixed then emit else emitOld
 
 /-- the smallest set of repairs (in a fixed order) under which `m` round-trips: attributes a failure to a defect -/
 def needs (m : Expr) : String :=
@@ -342,7 +499,8 @@ def stepE (st : St) (m r : Sexp) : String :=
       | .unmodelled t => answerE st m' none ++ "\trunmodelled " ++ t
       | .bad w => "bad-op re " ++ w
 
-/-- `e <mode> M R A RK`: as `e`, plus the Prepare fields when the applied criteria A are in the algebra -/
+/-- `e <mode> M R A RK` (mode fixed = format.go and Prepare as they are, fix7 = Prepare with the proposal hooks/C10-fix7,
+current = format.go before the three emitter fixes): as `e`, plus the Prepare fields when the applied criteria A are in the algebra -/
 def stepEP (st : St) (m r a rk : Sexp) : String :=
   let base := match m with
     | .atom "none" => "nowhere"
@@ -360,7 +518,7 @@ def stepEP (st : St) (m r a rk : Sexp) : String :=
   | .atom "none" => base
   | _ =>
     match readExpr a with
-    | .ok a' => base ++ answerP a' (if mBad then none else rkv) mv
+    | .ok a' => base ++ answerP st.prepFix7 a' (if mBad then none else rkv) mv
     | _ => base
 
 def step (st : St) (ts : List String) : St × String :=
@@ -372,7 +530,11 @@ def step (st : St) (ts : List String) : St × String :=
     | some [.atom "e", m, r] => (st, stepE st m r)
     | some [.atom "e", .atom "fixed", m, r] => (st, stepE { st with fixed := true } m r)     -- per-line mode, no state
     | some [.atom "e", .atom "current", m, r] => (st, stepE { st with fixed := false } m r)
-    | some [.atom "e", .atom md, m, r, a, rk] => (st, stepEP { st with fixed := md == "fixed" } m r a rk)
+    | some [.atom "e", .atom md, m, r, a, rk] =>
+      (st, stepEP { st with fixed := md == "fixed" || md == "fix7", prepFix7 := md == "fix7" } m r a rk)
+    | some [.atom "e", .atom md, m, r, a, rk, qm, qr, qa] =>
+      let st' := { st with fixed := md == "fixed" || md == "fix7", prepFix7 := md == "fix7" }
+      (st, stepEP st' m r a rk ++ (if st'.fixed then answerQ st'.prepFix7 qm qr qa else ""))
     | some [.atom "o", o] =>
       match readOperand o with
       | .ok o' =>
